@@ -90,7 +90,7 @@ def _run(ck, facts, tier):
                 conds = pre + [n(("not", ("if", vkey(k1)))), n(("if", vkey(g1))) if a else n(("not", ("if", vkey(g1)))), n(("if", vkey(g2))) if b else n(("not", ("if", vkey(g2))))]
                 val = (lv if lv is not None else Poly.const(0)) + (rv if rv is not None else Poly.const(0))
                 want.add((frozenset(conds), val.key()))
-        gotset = pset(got)
+        gotset, want = paths.minimise(pset(got)), paths.minimise(want)
         ck.check(r1, "bsplev[org_k=%s]" % orgname, gotset == want, "bsplev_single_f64 is not the Cox-de Boor decision list (support short-circuit, right-end rule, order-1 "
                  "indicator, guarded two-term recursion)", where, detail="paths only in code: %s ;; only in rule: %s" % (
                      [(sorted(map(str, c))[:4], str(v)[:200]) for c, v in list(gotset - want)[:2]], [(sorted(map(str, c))[:4], str(v)[:200]) for c, v in list(want - gotset)[:2]]),
@@ -127,7 +127,7 @@ def _run(ck, facts, tier):
                                    n(("if", vkey(g2))) if b else n(("not", ("if", vkey(g2))))]
                     val = ((X1 * div1.inv() if a else Poly.const(0)) - (X2 * div2.inv() if b else Poly.const(0))) * (K - ONE)
                     want.add((frozenset(conds), val.key()))
-        gotset = pset(got)
+        gotset, want = paths.minimise(pset(got)), paths.minimise(want)
         ck.check(r3, "bspldnev[org_k=%s]" % orgname, gotset == want, "bspldnev_single_f64 is not the derivative recursion (m=0 -> value; k=1 or m>=k -> 0; (k-1)(X_i/div1 - X_{i+1}/div2) "
                  "with Some(org_k) on every recursive call)", where, detail="only in code: %s ;; only in rule: %s" % (
                      [(sorted(map(str, c))[:5], str(v)[:300]) for c, v in list(gotset - want)[:2]], [(sorted(map(str, c))[:5], str(v)[:300]) for c, v in list(want - gotset)[:2]]),
@@ -136,9 +136,17 @@ def _run(ck, facts, tier):
             guarded_division(ck, r2, "bspldnev", got, where)
     # sub-clauses checked on their own (they survive a restructuring of the kernel)
     if r:
-        calls = [e for e in hir.walk(r["body"]) if e.get("k") == "call" and e["f"].get("def", "").endswith(("bsplev_single_f64", "bspldnev_single_f64"))]
-        rec = [c for c in calls if c.get("ln") != calls[0].get("ln")] if calls else []
-        ok = bool(rec) and all(hir.ctor_name(strip(c["args"][-1])) == "Some" for c in rec)
+        KERN = ("bsplev_single_f64", "bspldnev_single_f64")
+        bodies = [r["body"]]
+        for e in hir.walk(r["body"]):            # private helpers the kernel was split into (one level)
+            if e.get("k") == "call" and (e["f"].get("def") or "").startswith(SP) and not (e["f"].get("def") or "").endswith(KERN):
+                h = facts.fn(e["f"]["def"])
+                if h is not None and h["body"] not in bodies:
+                    bodies.append(h["body"])
+        calls = [e for b in bodies for e in hir.walk(b) if e.get("k") == "call" and e["f"].get("def", "").endswith(KERN)]
+        none_calls = [c for c in calls if hir.ctor_name(strip(c["args"][-1])) == "None"]
+        rec = [c for c in calls if c not in none_calls]
+        ok = bool(rec) and len(none_calls) <= 1 and all(hir.ctor_name(strip(c["args"][-1])) == "Some" for c in rec)
         ck.check(r3, "recursive-calls-pass-org_k", ok, "a recursive call of the derivative drops the original order (right-end rule would use the reduced order)", where,
                  sample="%d recursive calls, all with Some(org_k)" % len(rec))
     ck.not_decided += ["non-negativity, locality and partition of unity are mathematical consequences of this recurrence and are not separately evaluated",
